@@ -335,7 +335,7 @@ impl Scenario for NutsTransitions {
         "nuts_transitions"
     }
     fn runs(&self, tier: Tier) -> u64 {
-        tier.pick(6400, 80_000)
+        tier.pick(6400, 200_000)
     }
     fn generate(&self, g: &mut Gen, _t: Tier, _i: u64) -> Value {
         if g.bool(1, 40) {
@@ -467,7 +467,7 @@ impl Scenario for BuildTreeIsolated {
         "build_tree_isolated"
     }
     fn runs(&self, tier: Tier) -> u64 {
-        tier.pick(5600, 60_000)
+        tier.pick(5600, 150_000)
     }
     fn generate(&self, g: &mut Gen, _t: Tier, _i: u64) -> Value {
         let depth = match g.range(0, 19) {
